@@ -39,4 +39,19 @@ MUTANTS = [
          old="    return varint_encode(data.u & UINT32_MAX, b);", new="    return varint_encode(data.u, b);"),
     dict(prop="C14", name="length-off-at-boundary", file="src/variable-length-integer.c",
          old="    return varint_u64_length((uint64_t)n);", new="    return varint_u64_length((uint64_t)n) + (n == 0x10000000u);"),
+    # ---- C15
+    dict(prop="C15", name="swap40-lanes", file="include/ufw/binary-format.h",
+         old="           | ((value & 0x00ff000000ull) >> 16u)\n           | ((value & 0x0000ff0000ull))\n           | ((value & 0x000000ff00ull) << 16u)\n           | ((value & 0x00000000ffull) << 32u));",
+         new="           | ((value & 0x00ff000000ull) >> 16u)\n           | ((value & 0x0000ff0000ull))\n           | ((value & 0x000000ff00ull) << 16u)\n           | ((value & 0x000000007full) << 32u));"),
+    dict(prop="C15", name="s24b-sign-from-bit-22", file="include/ufw/binary-format.h",
+         old="    union bf_convert32 data = { .u32 = bf_ref_u24b(ptr) };\n    if (BIT_ISSET(data.u32, BITL(23))) {",
+         new="    union bf_convert32 data = { .u32 = bf_ref_u24b(ptr) };\n    if (BIT_ISSET(data.u32, BITL(22))) {"),
+    dict(prop="C15", name="inrange-s48-le", file="include/ufw/binary-format.h",
+         old="    const int64_t a = (1ull << 47u);\n    return ((value >= (-1 * a)) && (value < a));", new="    const int64_t a = (1ull << 47u);\n    return ((value >= (-1 * a)) && (value <= a));"),
+    dict(prop="C15", name="swap32-portable-only", file="include/ufw/binary-format.h",
+         old="           | ((value & 0x00ff0000ul) >>  8u)\n           | ((value & 0x0000ff00ul) <<  8u)\n           | ((value & 0x000000fful) << 24u));",
+         new="           | ((value & 0x00ff0000ul) >>  8u)\n           | ((value & 0x0000ff00ul) <<  8u)\n           | ((value & 0x0000007ful) << 24u));"),
+    dict(prop="C15", name="set-u56n-writes-8", file="include/ufw/binary-format.h",
+         old="    dst[5u] = src[5u];\n    dst[6u] = src[6u];\n#else\n    /* Top of file makes sure this can't happen. */\n#endif /* SYSTEM_ENDIANNESS_* */\n    return dst + 7u;",
+         new="    dst[5u] = src[5u];\n    dst[6u] = src[6u];\n    dst[7u] = src[7u];\n#else\n    /* Top of file makes sure this can't happen. */\n#endif /* SYSTEM_ENDIANNESS_* */\n    return dst + 7u;"),
 ]
